@@ -78,7 +78,38 @@ def main():
         "labels without a following statement (C23) and GNU extensions are rejected by refc: no claim",
     ]
     ctxs = contexts(checklib.tier())
-    alpha, cands = diffcheck.run(PID, ctxs, ("tree",), report, findings, parallel_from=4)
+
+    def hook(rec, impl, ref, tpl):
+        """violations on programs in which pragmas stand between two case/default labels get their own signature (known finding)"""
+        if not rec.get("viol"):
+            return
+        for v in rec["viol"]:
+            kinds = [t for t, _ in v["toks"] if t != "EPS"]
+            # pragmas between 'switch ( ... )' and its body
+            for i, k in enumerate(kinds):
+                if k == "SWITCH" and i + 1 < len(kinds) and kinds[i + 1] == "LPAREN" and v["sig"].startswith("tree:"):
+                    depth, j = 0, i + 1
+                    while j < len(kinds):
+                        depth += kinds[j] == "LPAREN"
+                        depth -= kinds[j] == "RPAREN"
+                        j += 1
+                        if depth == 0:
+                            break
+                    if j < len(kinds) and kinds[j] in ("PPPRAGMA", "_PRAGMA"):
+                        v["sig"] = "tree:pragma-between-switch-and-body"
+                        break
+            if not v["sig"].startswith("tree:") or v["sig"] == "tree:pragma-between-switch-and-body":
+                continue
+            for i, k in enumerate(kinds):
+                if k == "COLON" and i + 1 < len(kinds) and kinds[i + 1] in ("PPPRAGMA", "_PRAGMA"):
+                    j = i + 1
+                    while j < len(kinds) and kinds[j] in ("PPPRAGMA", "PPPRAGMASTR", "_PRAGMA", "LPAREN", "STRING_LITERAL", "RPAREN"):
+                        j += 1
+                    if j < len(kinds) and kinds[j] in ("CASE", "DEFAULT") and v["sig"].startswith("tree:"):
+                        v["sig"] = "tree:pragma-between-case-labels"
+                        break
+
+    alpha, cands = diffcheck.run(PID, ctxs, ("tree",), report, findings, extra_path_hook=hook, parallel_from=4)
     # evidence would be huge with one entry per generated template: summarise them
     pat_runs = [r for r in report.runs if "+pragma" in r["name"]]
     report.runs = [r for r in report.runs if "+pragma" not in r["name"]]
